@@ -128,7 +128,7 @@ def envLoop (recs : List (CMDRec σ)) : List Tok → St σ → St σ
       | [] => st'
       | _ :: rest' => envLoop recs rest' st'
 
-/-- capacity of `char *EnvStr[256]`; `EnvStr[EnvCnt] = start` needs EnvCnt ≤ 255 -/
+/-- number of parameters up to which all option sources are compared (`MAXPARAM` of the argv path; the former capacity of `EnvStr`) -/
 def envStrCap : Nat := 256
 
 def decodeLine (recs : List (CMDRec σ)) (oneLine : Tok) (st : St σ) : St σ :=
@@ -138,8 +138,8 @@ def decodeLine (recs : List (CMDRec σ)) (oneLine : Tok) (st : St σ) : St σ :=
   | c :: _ =>
     if c == ';' then st else
     let toks := splitLine (l.length + 1) l
-    if toks.length ≥ envStrCap then { st with ub := true }
-    else envLoop recs toks st
+    -- `EnvStr` is allocated for the line since the repair `d9043c1`; it was `char *EnvStr[256]`, overrun from 256 parameters on
+    envLoop recs toks st
 
 /-- ProcessFile; `fs name` = the lines ReadLn delivers -/
 def processFile (recs : List (CMDRec σ)) (fs : Tok → Option (List Tok)) (name : Tok) (st : St σ) : St σ :=
